@@ -26,6 +26,8 @@ pub mod ctx;
 pub mod poly;
 pub mod fri;
 pub mod gates;
+pub mod lookup;
+pub mod merkle;
 pub mod plonk;
 pub mod plonkv;
 pub mod transcript;
